@@ -17,6 +17,9 @@ func genCfg(rng *hx.Rng, prop string, meta *hx.Meta) cfg {
 		var ws writerSpec
 		for k, n := 0, 1+rng.Intn(3); k < n; k++ {
 			cs := callSpec{Kind: rng.Intn(5), Size: []int{0, 1, 7, 100, 1020, 1024, 1500}[rng.Intn(7)]}
+			if rng.Chance(4) {
+				cs.Size = 70000 // beyond the largest pooled size class: the copy taken at accept time is not a pooled one
+			}
 			if cs.Kind == 1 || cs.Kind == 3 {
 				cs.Segs = 1 + rng.Intn(3) // single-segment vectors included
 			}
